@@ -369,6 +369,38 @@ func (in *Interp) sliceOp(fr *frame, x *ssa.Slice) Value {
 	if lo == nil {
 		lo = ts.Const(64, 0)
 	}
+	if in.eng.cfg.ConcOff && !lo.IsConst() {
+		// case-split symbolic slice offsets (keeps later accesses at concrete
+		// positions); only offsets that pass the bounds check are enumerated
+		if l2, h2 := in.ival(lo); l2 != h2 {
+			var lim *Term
+			switch a := v.(type) {
+			case SliceV:
+				lim = a.Cap
+			case StrV:
+				lim = in.strLen(a)
+			}
+			if lim != nil {
+				in.must(ts.Ule(lo, lim), "slice bounds out of range [lo:]")
+			}
+			lo = ts.Const(64, in.concretize(lo, "slice-offset"))
+		}
+	}
+	if in.eng.cfg.ConcOff && hi != nil && !hi.IsConst() {
+		if l2, h2 := in.ival(hi); l2 != h2 {
+			var lim *Term
+			switch a := v.(type) {
+			case SliceV:
+				lim = a.Cap
+			case StrV:
+				lim = in.strLen(a)
+			}
+			if lim != nil {
+				in.must(ts.Ule(hi, lim), "slice bounds out of range [:hi]")
+			}
+			hi = ts.Const(64, in.concretize(hi, "slice-end"))
+		}
+	}
 	switch a := v.(type) {
 	case SliceV:
 		if hi == nil {
